@@ -1867,7 +1867,7 @@ class Gen:
                 for _ in range(3 if po else 1):
                     p.exts.append(self.index_probe_function(len(p.exts)))
             if "shifts" in self.feat:
-                ns = 6 if po else 1      # 6 probe-only programs x 6 = the whole (amount x direction x signedness) table
+                ns = 8 if po else 1      # 4 probe-only programs x 8 = the whole (amount x direction x signedness) table
                 for k in range(ns):
                     p.exts.append(self.shiftconst_probe_function(len(p.exts), None if self.index is None else self.index * ns + k))
             for _ in range(m):
@@ -1884,7 +1884,7 @@ class Gen:
                 p.exts.append(self.feature_probe_function(len(p.exts), force="dec"))
         return p
 
-    TABLE_PER_PROBE_PROGRAM = 15
+    TABLE_PER_PROBE_PROGRAM = 22       # 4 probe-only programs walk through the whole 88-entry operator table
 
     # ---------------------------------------------------------------- calls
     def arg_word(self, t):
